@@ -36,6 +36,23 @@ struct Item
     int serial;
 };
 static inline Item *item(N *n) { return (Item *)((char *)n - offsetof(Item, node)); }
+
+// The node layout depends on A_SIZE_POINTER: packed (colour / balance in the low bits of parent_) or separate members.
+#ifdef VP_RBT
+#if defined(A_SIZE_POINTER) && (A_SIZE_POINTER + 0 > 1)
+static inline bool node_black(N const *n) { return (n->parent_ & 1) != 0; }
+#else
+#define VP_UNPACKED 1
+static inline bool node_black(N const *n) { return n->color != 0; }
+#endif
+#else
+#if defined(A_SIZE_POINTER) && (A_SIZE_POINTER + 0 > 3)
+static inline int node_factor_raw(N const *n) { return int(n->parent_ & 3) - 1; } // 2 = the undefined bit pattern 11
+#else
+#define VP_UNPACKED 1
+static inline int node_factor_raw(N const *n) { return (n->factor >= -1 && n->factor <= 1) ? n->factor : 2; }
+#endif
+#endif
 static inline Item const *item(N const *n) { return (Item const *)((char const *)n - offsetof(Item, node)); }
 
 static int cmp_nodes(void const *a, void const *b)
@@ -111,7 +128,7 @@ static int walk(Ctx &cx, N *n, N *parent, Walk &w, int depth, bool parent_red, i
     if (!n->left && n->right) { w.right_only = true; }
     int hl, hr;
 #ifdef VP_RBT
-    bool red = (n->parent_ & 1) == 0;
+    bool red = !node_black(n);
     VP_CHECK(cx, !(red && parent_red), "rbt:red_red", "rbt: red node key %d has a red parent", item(n)->key);
     int bl = walk(cx, n->left, n, w, depth + 1, red, hl);
     w.inorder.push_back(n);
@@ -124,8 +141,8 @@ static int walk(Ctx &cx, N *n, N *parent, Walk &w, int depth, bool parent_red, i
     walk(cx, n->left, n, w, depth + 1, false, hl);
     w.inorder.push_back(n);
     walk(cx, n->right, n, w, depth + 1, false, hr);
-    int stored = int(n->parent_ & 3) - 1;
-    VP_CHECK(cx, (n->parent_ & 3) != 3, "avl:factor_undefined", "avl: node key %d has balance bits 11", item(n)->key);
+    int stored = node_factor_raw(n);
+    VP_CHECK(cx, stored != 2, "avl:factor_undefined", "avl: node key %d has an undefined balance factor", item(n)->key);
     VP_CHECK(cx, hr - hl >= -1 && hr - hl <= 1, "avl:unbalanced", "avl: node key %d: subtree heights %d / %d", item(n)->key, hl, hr);
     VP_CHECK(cx, stored == hr - hl, "avl:factor_mismatch", "avl: node key %d: stored factor %d, heights %d / %d", item(n)->key, stored, hl, hr);
     height_out = 1 + std::max(hl, hr);
@@ -139,7 +156,7 @@ static void check_tree(Ctx &cx, Tree &t, Walk *wout = nullptr)
     w.limit = t.model.size();
     int h = 0;
 #ifdef VP_RBT
-    if (t.root.node) { VP_CHECK(cx, (t.root.node->parent_ & 1) == 1, "rbt:root_red", "rbt: root is red"); }
+    if (t.root.node) { VP_CHECK(cx, node_black(t.root.node), "rbt:root_red", "rbt: root is red"); }
 #endif
     walk(cx, t.root.node, nullptr, w, 0, false, h);
     VP_CHECK(cx, w.count == t.model.size(), "structure:lost_nodes", "%s: walk finds %zu nodes, model has %zu", kName, w.count, t.model.size());
@@ -471,7 +488,7 @@ static int do_remove(Ctx &cx, Tree &t, int key)
             gone = n->right;
             while (gone->left) { gone = gone->left; }
         }
-        if (gone->parent_ & 1) { cx.label(L_RM_BLACK); }
+        if (node_black(gone)) { cx.label(L_RM_BLACK); }
     }
 #endif
     cx.log("remove(%d)\n", f->first);
